@@ -4,7 +4,7 @@
    cpu_times_percent, Process.cpu_percent), specification: C07/Spec.v (kernel printer
    k_stat of /proc/stat, tick-level formulas).  Seconds and percentages are exact
    rationals; float rounding is outside the model (compared within one rounding step). *)
-From PV Require Import C07.SpecLife C07.ProofsParse C07.ProofsArith C07.ProofsState C07.ProofsScript C07.ProofsLife C07.SpecBlock C07.ProofsBlock.
+From PV Require Import C07.SpecLife C07.ProofsParse C07.ProofsArith C07.ProofsState C07.ProofsScript C07.ProofsLife C07.SpecBlock C07.ProofsBlock C07.ProofsNested.
 Local Open Scope Q_scope.
 
 (* ---- cpu_times(): every /proc/stat the kernel can print (any CPUs, nf >= 7 decimal counters
@@ -314,3 +314,38 @@ Theorem C07_oneshot_block_transparent : forall clk l,
   const_blocks 0 None l = true -> pb_run clk pb_init l = pb_run clk pb_init (erase l).
 Proof. exact block_transparent. Qed.
 Print Assumptions C07_oneshot_block_transparent.
+
+(* ---- RE-ENTRANCY WITHIN ONE THREAD.  While a blocking cpu_percent(interval > 0) /
+   cpu_times_percent(interval > 0) sleeps, the same thread (signal handler, gc callback, __del__,
+   trace hook) may call these functions again (bevent: the blocking call, the calls nested in its
+   sleep, whether the sleep is left by an exception). *)
+
+(* the blocking call's answer is independent of ANY calls nested in its sleep (its first sample is
+   a local of the call): one answer r, whatever is nested *)
+Theorem C07_blocking_answer_independent_of_nested_calls : forall clk st e,
+  is_blocking e = true ->
+  exists r, forall nested, exists pre,
+      snd (bstep clk st {| be_ev := e; be_nested := nested; be_raise := false |}) = pre ++ [r].
+Proof. exact blocking_answer_independent. Qed.
+Print Assumptions C07_blocking_answer_independent_of_nested_calls.
+
+(* an exception leaving the sleep: the blocking call fails and stores nothing -- the thread's samples
+   are exactly what the nested calls left *)
+Theorem C07_interrupted_sleep_stores_nothing : forall clk st e nested t1,
+  is_blocking e = true -> first_read clk (ensure_nf (memo st) (e_k1 e)) e = Val t1 ->
+  bstep clk st {| be_ev := e; be_nested := nested; be_raise := true |}
+  = (run_state clk (set_memo st (Some (ensure_nf (memo st) (e_k1 e)))) nested,
+     run clk (set_memo st (Some (ensure_nf (memo st) (e_k1 e)))) nested ++ [Exc RuntimeError]).
+Proof. exact interrupted_sleep_stores_nothing. Qed.
+Print Assumptions C07_interrupted_sleep_stores_nothing.
+
+(* the script theorem with nested calls: every result is the demanded one (spec_brun: nested calls
+   are measured against what the thread has stored; the blocking call reports between its own two
+   samples and stores its last sample after theirs, or nothing when interrupted) *)
+Theorem C07_script_with_nested_calls : forall clk nf ids imp l,
+  imp_wf nf ids imp = true -> bscript_ok clk nf ids imp [] l = true ->
+  Forall2 (out_eq sres_eq)
+          (brun clk (sys_start clk (option_map (fun x => (fst x, k_stat (snd x))) imp)) (map to_bevent l))
+          (spec_brun clk imp [] l).
+Proof. exact nested_script. Qed.
+Print Assumptions C07_script_with_nested_calls.
